@@ -624,6 +624,7 @@ def stream_files(ctx, F, n_files, n_sweep, families, use_gpg):
                 st["files_with_two_signatures_by_one_key"] = st.get("files_with_two_signatures_by_one_key", 0) + 1
             sweep = st["sweep_files"] < n_sweep
             edits = []      # (kind, edited file, content_changed?, sig index touched or None)
+            leaf_name = {}
             if dsse:
                 pl = dsse_payload(fj)
                 paths = list(leaf_paths(pl))
@@ -656,6 +657,7 @@ def stream_files(ctx, F, n_files, n_sweep, families, use_gpg):
                     e = copy.deepcopy(fj)
                     set_at(e["signed"], pth, edit_value(rng, get_at(e["signed"], pth)))
                     edits.append(("signed-leaf", e, None, None))
+                    leaf_name[id(e)] = "/".join("*" if isinstance(x, int) else str(x) for x in pth if not (isinstance(x, str) and len(x) > 24))
                 # structural edits the loader may normalise
                 e = copy.deepcopy(fj)
                 e["signed"][rng.choice(["unknown_field", "zzz", "Name"])] = rng.choice(["x", 1, None, {"a": []}])
@@ -729,6 +731,9 @@ def stream_files(ctx, F, n_files, n_sweep, families, use_gpg):
                             st["edits_accepted_normalised"] += 1
                             nk = st.setdefault("normalised_by_kind", {})
                             nk[kind] = nk.get(kind, 0) + 1
+                            if id(e) in leaf_name:
+                                nl = st.setdefault("normalised_leaves", {})
+                                nl[leaf_name[id(e)]] = nl.get(leaf_name[id(e)], 0) + 1
                     if sig_i is not None and sig_i in accepted and sig_i < len(signers) and not dup_signers:
                         # the signature entry of signer sig_i was changed/removed: only acceptable if another valid
                         # entry by the same key exists (never generated here)
@@ -992,11 +997,37 @@ def compare_cli(step, ans, fam_of_keyid):
 
 # ------------------------------------------------------------------------------------------------
 
+def run_tie(ctx):
+    """regenerate Gen/C09Consts.v from the source tree and compile the tie theorems against it"""
+    from harness import c09tie
+    gen = os.path.join(ctx.work, "Gen")
+    tie = os.path.join(ctx.work, "Tie")
+    os.makedirs(gen, exist_ok=True)
+    try:
+        src, facts = c09tie.generate(core.REPO)
+    except Exception as e:  # noqa  (TieError, SyntaxError, missing file ...): a broken tie, never skipped
+        ctx.oblige("tie:regenerate-from-source", False, "%s: %s" % (type(e).__name__, e))
+        return []
+    path = os.path.join(gen, "C09Consts.v")
+    with open(path, "w") as f:
+        f.write(src)
+    q = ["-Q", gen, "InToto.Gen", "-Q", tie, "InToto.Tie"]
+    rc, out = core.coqc(path, extra_q=q, timeout=300)
+    if rc != 0:
+        ctx.oblige("tie:gen-compiles:C09Consts.v", False, out[-800:])
+        return facts
+    core.compile_and_record(ctx, os.path.join(core.COQ, "Tie", "C09.v"), "Tie/C09.v", extra_q=q, subdir="Tie", timeout=300)
+    for fct in facts:
+        ctx.oblige("tie:source-shape:" + fct, True)
+    return facts
+
+
 def run(ctx):
     thorough = ctx.thorough()
     t_start = time.time()
     have_props = [p for p in PROPS if os.path.exists(os.path.join(core.COQ, p))]
     core.check_props(ctx, have_props)
+    tie_facts = run_tie(ctx)
     init_pool(ctx)
     families = ["ed25519"] * 6 + ["rsa", "ecdsa"] if not thorough else ["ed25519", "rsa", "ecdsa", "gpg"]
     use_gpg = thorough
@@ -1099,7 +1130,7 @@ def run(ctx):
     evaluations = len(ans) + len(fans) + len(cans)
     distinct = canon_stats["distinct"] + len({strict(c["req"]["file"]) for c in F.cases}) + len({strict(s["req"]) for s in cli_steps})
     cov = {
-        "checker_cmd": "coqc %s; extracted Canon.signable_bytes / Sign.pae_str / Meta.from_dict+verify_signature / Sign.cli_sign+cli_verify "
+        "checker_cmd": "coqc %s; coqc Tie/C09.v against regenerated Gen/C09Consts.v; extracted Canon.signable_bytes / Sign.pae_str / Meta.from_dict+verify_signature / Sign.cli_sign+cli_verify "
                        "vs securesystemslib.formats.encode_canonical, Signable.signable_bytes, Envelope.pae, Metadata.load/dump/"
                        "create_signature/verify_signature and in_toto.in_toto_sign.main()" % " ".join(have_props),
         "trusted_base": core.KERNEL_TB + [
@@ -1122,6 +1153,8 @@ def run(ctx):
         "canon": canon_stats, "files": fst, "file_requests": len(F.cases), "file_unmodelled_skipped": unmodelled,
         "file_tags": _count(c["tag"].split(":")[0] for c in F.cases),
         "impl_verdicts": _count(v for c in F.cases for v in c["impl"].get("verify", ["load_err"])),
+        "tie": {"regenerated": "Gen/C09Consts.v (attr.ib field lists, _type tags, constructor defaults, ENVELOPE_PAYLOAD_TYPE) by harness/c09tie.py",
+                "theorems": "Tie/C09.v", "source_shapes_checked": tie_facts},
         "cli": cli_stats, "kernel_sample_cases": kn + kn2 + kn3, "families": sorted(set(families)),
         "wall_streams_s": round(time.time() - t_start, 1),
     }
